@@ -17,15 +17,15 @@ THEOREMS = [
     "GoaktVerif.C34.gate_step",
     "GoaktVerif.C34.witness_emits",
     "GoaktVerif.C34.witness_gate",
-    "GoaktVerif.C34.self_reported_left",
+    "GoaktVerif.C34.self_never_left",
     "GoaktVerif.C34.C34_refuted",
     "GoaktVerif.C34.C34_partial",
     "GoaktVerif.C34.verdict_sound",
 ]
 INPKG = ["internal/cluster/zz_verif_c34.go"]
 MANIFEST = {
-    "level_text": "Kernel-checked theorems over ALL notification histories (any length, node ids, epoch numbers, duplicates, reorderings) of a Lean model of internal/cluster/cluster.go's membership-event bookkeeping: a node is reported as left at most once (left_once), between two NodeJoined(n) there is an opposite event (join_once), the local node is never reported as joined (self_never_joined), every NodeLeft carries the timestamp of a left notification for that node (emitted_left_ts) and is emitted only by the timeout or when some node-left epoch has been announced started and complete (gate_model). The full property is REFUTED with explicit witnesses (C34_refuted: a second departure is handed the previous, completed epoch and is announced before its own rebalance; self_reported_left) and PROVED under a decidable guard that excludes exactly the three recorded findings (C34_partial); verdict_sound shows that the oracle predicate Spec.C34.verdict, which the check evaluates on the implementation's output, never flags the model's own run on a guarded history (the oracle and the theorem are the same predicate). The model is tied to the real cluster struct (built by cluster.New, not started) by a differential run through handleClusterEvent/emitOverdueNodeLeft that compares the events of every step and the whole bookkeeping state.",
-    "level_note": "partial: the property is false of the current code (findings C34-F1, C34-F2, C34-F3, reported as KNOWN-FINDING). Outside the model: the 256-slot events channel (dropped events when full), LeaderChanged detection, the real 30 s time.AfterFunc (the timeout is the op `overdue n`, driven by calling emitOverdueNodeLeft), goroutine interleaving of handlers (each handler body runs under eventsLock and is one atomic step). Ground truth for \"the epoch covering a departure\" is an annotation carried by the left notification in the generated causal scripts.",
+    "level_text": "Kernel-checked theorems over ALL notification histories (any length, node ids, epoch numbers, duplicates, reorderings) of a Lean model of internal/cluster/cluster.go's membership-event bookkeeping: a node is reported as left at most once (left_once), between two NodeJoined(n) there is an opposite event (join_once), the local node is never reported as joined or left (self_never_joined, self_never_left), every NodeLeft carries the timestamp of a left notification for that node (emitted_left_ts) and is emitted only by the timeout or when some node-left epoch has been announced started and complete (gate_model). The full property is REFUTED with explicit witnesses (C34_refuted: a second departure is handed the previous, completed epoch and is announced before its own rebalance) and PROVED under a decidable guard that excludes exactly the two open findings (C34_partial); verdict_sound shows that the oracle predicate Spec.C34.verdict, which the check evaluates on the implementation's output, never flags the model's own run on a guarded history (the oracle and the theorem are the same predicate). The model is tied to the real cluster struct (built by cluster.New, not started) by a differential run through handleClusterEvent/emitOverdueNodeLeft that compares the events of every step and the whole bookkeeping state.",
+    "level_note": "partial: the property is false of the current code (findings C34-F1, C34-F3, reported as KNOWN-FINDING; C34-F2 is fixed). Outside the model: the 256-slot events channel (dropped events when full), LeaderChanged detection, the real 30 s time.AfterFunc (the timeout is the op `overdue n`, driven by calling emitOverdueNodeLeft), goroutine interleaving of handlers (each handler body runs under eventsLock and is one atomic step). Ground truth for \"the epoch covering a departure\" is an annotation carried by the left notification in the generated causal scripts.",
     "technique": "Lean 4 proof (inductive invariants over notification histories) on a hand-written model tied to the real cluster struct by a differential run that compares emitted events and the full bookkeeping state",
 }
 TRUSTED = [
@@ -313,8 +313,6 @@ def classify(case, impl, why):
     if why.startswith("diff: "):
         return "DIFF"      # a model/implementation difference is not a property failure (keeps the shrinker on real failures)
     ops = case.split()
-    if why.startswith("self-reported-left"):
-        return "C34-F2" if any(o.startswith("ls") for o in ops) else None
     if why.startswith("gate "):
         kv = dict(x.split("=") for x in why.split()[1:])
         ts, step = int(kv["ts"]), int(kv["step"])
